@@ -428,7 +428,11 @@ func GenLimits(prop string, seed uint64, thorough bool) *Scenario {
 				sz = 1
 			}
 			op := RawOp{Op: "http", Method: "POST", Query: base, UseSid: true, Hdr: map[string]string{"Content-Type": "text/plain;charset=UTF-8"}, NoCL: g.p(0.5), AtMs: g.pick(0, 20)}
-			if eio == 4 && g.p(0.7) {
+			if eio == 4 && limit >= 10 && g.p(0.2) {
+				// multi-byte text: more bytes than the limit, fewer characters than the limit
+				k := g.pick(int(limit)/2+1, int(limit)-1, int(limit)/2+2)
+				op.Body = []byte("4" + strings.Repeat("\u00e9", k))
+			} else if eio == 4 && g.p(0.7) {
 				op.BodyGen = sz // one message packet of sz-1 payload bytes
 			} else if eio == 4 {
 				// several packets, total around the limit
